@@ -328,7 +328,9 @@ def check_faulted(world, case, plan, ref_out, out, st, mon, ctr, sites, min_size
         ops_, slots_ = world.last
         k_ = len(ops_) - 1
         world.A.set_plan([])
+        world.journal("after same-object rerun")
         out1, _, _ = W.apply_op(ops_[k_], slots_)
+        world.journal("after same-object rerun done")
         if out1 != ref_out:
             viols.append(dict(base, kind="later_call_wrong", got=_trim(out1), want=_trim(ref_out), when="same operand objects, right after the fault"))
     # O4/O5: the same operation, fault-free, right afterwards -- first with the caches exactly as the
@@ -479,9 +481,13 @@ def _with_journal(fn, arg, cfg, seed, case_for_crash):
                     lines = f.read().splitlines()
             except OSError:
                 pass
-            faults = [ln for ln in lines if ln.startswith("fault ") or ln.startswith("after")]
-            if e.how in ("signal", "exit") and lines and lines[-1].startswith(("fault ", "after")) and not lines[-1].endswith("done"):
-                v = {"kind": "crash_in_fault_window", "how": e.how, "detail": e.detail[-500:], "journal_tail": lines[-3:], "plan": []}
+            faults = [ln for ln in lines if ln.startswith("fault ") and not ln.endswith("done")]
+            if e.how in ("signal", "exit") and faults:
+                # the process was healthy through the fault-free counting passes; once a faulted call has been
+                # made, a crash -- inside that call or in any later one -- is what the property forbids
+                inside = lines[-1].startswith(("fault ", "after")) and not lines[-1].endswith("done")
+                v = {"kind": "crash_in_fault_window" if inside else "crash_after_alloc_failure", "how": e.how, "detail": e.detail[-500:],
+                     "journal_tail": lines[-3:], "plan": []}
                 return {"seed": seed, "case": case_for_crash(lines), "violations": [v], "counters": {"operations": 1}, "nontrivial": [], "digest": "crash"}
             raise
         return res
